@@ -624,6 +624,8 @@ TARGETS = {
     "selfc": "s0 = 1\ninclude scope @MOD@.selfc_s\n",
     "fcyc": "f0 = 1\ninclude file @ROOT@/sc/back.phil\n",
     "missing": "m = 1\ninclude file @ROOT@/sc/nowhere.phil\n",
+    # expert levels up to 5 (a foreign scope is rendered to text before it is spliced: nothing may be filtered out)
+    "exp": "e0 = 1\n  .expert_level = 5\nes\n  .expert_level = 4\n{\n  e1 = 2\n    .expert_level = 3\n  e2 = 3\n}\ne3 = 4\n  .help = h\n",
 }
 SC_FILES = [
     ["sc/f1.phil", "s {\n  y = 5\n  include file g.phil\n}\nx = 7\n"],
@@ -643,6 +645,7 @@ SUBPATHS = {
     "deep": [None, "w", "w.s", "w.s.y", "w.s.u.v", "w.r", "w.r.y", "x", "r.y", "s.z", "last", "w.x"],
     "only": [None, "x", "s.y", "t", "t.s", "t.s.y", "t.s.g", "t.s.u", "t.x", "t.g"],
     "off": [None, "a", "b", "d", "x"],
+    "exp": [None, "e0", "es", "es.e1", "es.e2", "e3", "nothere"],
 }
 
 _MOD = {"name": None, "dir": None}
@@ -654,11 +657,20 @@ def scope_module():
         name = "c13scopes_%d" % os.getpid()
         d = tmp_root() + "/pymod"
         os.makedirs(d, exist_ok=True)
-        src = ["import freephil", ""]
+        src = ["import freephil", "",
+               "class _Foreign:",
+               "    \"\"\"stand-in for a scope of another PHIL implementation (libtbx): only is_scope and show()\"\"\"",
+               "    is_scope = True",
+               "    def __init__(self, scope):",
+               "        self._scope = scope",
+               "    def show(self, out=None, expert_level=None, attributes_level=0):",
+               "        self._scope.show(out=out, expert_level=expert_level, attributes_level=attributes_level)",
+               ""]
         for t, text in TARGETS.items():
             src.append("%s_s = %r" % (t, text.replace(MARK, base_dir()).replace(MODMARK, name)))
             src.append("%s_o = freephil.parse(%s_s)" % (t, t))
             src.append("def %s_c():\n    return freephil.parse(%s_s)\n" % (t, t))
+            src.append("%s_f = _Foreign(freephil.parse(%s_s))" % (t, t))
         src += ["notscope = 1.0", "none_t = None", "def bad_c():\n    return 3\n"]
         with open("%s/%s.py" % (d, name), "w") as f:
             f.write("\n".join(src) + "\n")
@@ -739,7 +751,7 @@ class IncludeScope(Stream):
 
     def cases(self, rng, tier):
         M = MODMARK
-        names = [t + v for t in TARGETS for v in ("_s", "_o", "_c")]
+        names = [t + v for t in TARGETS for v in ("_s", "_o", "_c", "_f")]
         combos = [(n, p) for n in names for p in SUBPATHS.get(n[:-2], [None, "a"])]
         if tier != "quick":
             combos = combos * 8
@@ -776,6 +788,7 @@ class IncludeScope(Stream):
         lim = sys.getrecursionlimit()
         sys.path.insert(0, moddir)
         tree = None
+        before = self.module_links(mod)
         try:
             os.chdir(base + "/" + case["cwd"] if case["cwd"] else base)
             sys.setrecursionlimit(min(lim, frame_depth() + 250))
@@ -793,7 +806,34 @@ class IncludeScope(Stream):
             sys.setrecursionlimit(lim)
             os.chdir(old)
             sys.path.remove(moddir)
-        return [obs, self.judge(case, base, obs, tree)]
+        verdict = self.judge(case, base, obs, tree)
+        if verdict is None:
+            after = self.module_links(mod)
+            if before is not None and after != before:
+                bad = sorted(k for k in after if after[k] != before.get(k))
+                verdict = ("the Python-level scope(s) %s were modified by being included (printed form / full paths / parent links "
+                           "of their objects): splicing must work on copies, the same scope may be included any number of times" % bad)
+        return [obs, verdict]
+
+    @staticmethod
+    def module_links(mod):
+        """printed form, full_path() and parent link of every object of every module-level scope of the target module"""
+        m = sys.modules.get(mod)
+        if m is None:
+            return None
+        def links(sc, prefix=""):
+            out = []
+            for o in sc.objects:
+                here = prefix + o.name
+                out.append([here, o.full_path(), o.primary_parent_scope is sc])
+                if o.is_scope:
+                    out.extend(links(o, here + "."))
+            return out
+        snap = {}
+        for k, v in vars(m).items():
+            if k.endswith("_o") and hasattr(v, "objects"):
+                snap[k] = [v.as_str(attributes_level=3), links(v)]
+        return snap
 
     # ---- the property's statement
     def expand(self, text, refdir, cwd_abs, base, fstack, depth):
@@ -821,7 +861,7 @@ class IncludeScope(Stream):
                     raise Expect("args")                  # more than import path + sub-path
                 imp, sub = inc[1], (inc[2] if len(inc) == 3 else None)
                 parts = imp.split(".")
-                if len(parts) != 2 or parts[0] != mod or parts[1][:-2] not in TARGETS or parts[1][-2:] not in ("_s", "_o", "_c"):
+                if len(parts) != 2 or parts[0] != mod or parts[1][:-2] not in TARGETS or parts[1][-2:] not in ("_s", "_o", "_c", "_f"):
                     raise Expect("badtarget")
                 ttext = subst(TARGETS[parts[1][:-2]], base).replace(MODMARK, mod)
                 key = "scope " + imp             # the stack mixes normalised file names and these keys
